@@ -45,6 +45,15 @@ class FuncInfo:
         a = self.node.args
         return [x.arg for x in a.posonlyargs + a.args]
 
+    @property
+    def rparams(self):
+        """parameters with the receiver slot first: a static method of a class gets a placeholder,
+        so that index k >= 1 is the k-th explicit parameter whatever the flavour (rules about
+        private helpers must not depend on a helper using `self`)"""
+        if self.cls is not None and self.flavour == "staticmethod":
+            return ["<static>"] + self.params
+        return self.params
+
     def __repr__(self):
         return f"<Func {self.fq}>"
 
@@ -399,7 +408,7 @@ class Repo:
                 vals.append(v)
             return True, (tuple(vals) if isinstance(expr, ast.Tuple) else vals)
         if isinstance(expr, ast.Call) and isinstance(expr.func, ast.Name) \
-                and expr.func.id in ("range", "list", "tuple", "sorted", "len") \
+                and expr.func.id in ("range", "list", "tuple", "sorted", "len", "frozenset") \
                 and not expr.keywords and 1 <= len(expr.args) <= 3:
             args = []
             for a in expr.args:
@@ -411,6 +420,9 @@ class Repo:
                 if expr.func.id == "range" and all(isinstance(a, int) for a in args) \
                         and len(range(*args)) <= 64:
                     return True, list(range(*args))
+                if expr.func.id == "frozenset" and len(args) == 1 \
+                        and isinstance(args[0], (list, tuple)):
+                    return True, frozenset(args[0])
                 if expr.func.id in ("list", "tuple", "sorted", "len") and len(args) == 1 \
                         and isinstance(args[0], (list, tuple, dict)):
                     seq = list(args[0])
